@@ -7,6 +7,7 @@ The snapshot of /repo is overlaid with lines that exist only under cfg(kani) (se
   * `#![cfg_attr(kani, feature(...))]` and `#[cfg(kani)] extern crate self as gc_arena;` in src/lib.rs.
 No executable token of the crate is rewritten or removed.
 """
+from common import run_group
 import os, re, subprocess, sys, time, json, shutil, resource
 
 HERE = os.path.dirname(os.path.abspath(__file__))
@@ -71,6 +72,9 @@ def parse_output(out, harnesses):
         failed = []
         for fm in re.finditer(r'Failed Checks: (.*)\n(?:\s*File: "([^"]*)", line (\d+), in (\S+))?', b):
             failed.append(dict(check=fm.group(1).strip(), file=fm.group(2), line=fm.group(3), function=fm.group(4)))
+        if st == 'FAILED' and 'encountered no panics, but at least one was expected' in b:
+            # a should_panic row: the harness ran to its end although the contract demands that it does not return normally
+            failed.append(dict(check='should_panic harness ended without a panic (the call returned normally)', file=None, line=None, function=short))
         cv = re.search(r'\*\* (\d+) of (\d+) cover properties satisfied', b)
         covers = dict(satisfied=int(cv.group(1)) if cv else 0, total=int(cv.group(2)) if cv else 0)
         tm = re.search(r'Verification Time: ([\d.]+)s', b)
@@ -114,7 +118,7 @@ def run(repo, scratch, krows, seed, tier):
             cmd += ['--harness', h]
         cmds.append(' '.join(cmd))
         try:
-            p = subprocess.run(cmd, cwd=repo, env=env, capture_output=True, text=True, timeout=int(os.environ.get('VERIF_KANI_TIMEOUT', '3000')), preexec_fn=_limit)
+            p = run_group(cmd, int(os.environ.get('VERIF_KANI_TIMEOUT', '3000')), cwd=repo, env=env, preexec_fn=_limit)
         except subprocess.TimeoutExpired:
             raise Undecided('kani timed out')
         out = p.stdout + '\n' + p.stderr
@@ -147,7 +151,7 @@ def run(repo, scratch, krows, seed, tier):
                 if feat:
                     cmd2 += ['--features', feat]
                 try:
-                    p2 = subprocess.run(cmd2, cwd=repo, env=env, capture_output=True, text=True, timeout=1200)
+                    p2 = run_group(cmd2, 1200, cwd=repo, env=env)
                     o2 = p2.stdout + p2.stderr
                     tests = re.findall(r'Concrete playback unit test for `[^`]*`:\n```\n(.*?)```', o2, re.S)
                     # Kani prints one test per failed check and per satisfied cover: keep the first that is not for a cover property
